@@ -447,6 +447,13 @@ class C06(Prop):
         for _ in range(ctx.n(100, 1000)):
             add_decode_case(ctx, damaged=True)
             add_text_case(ctx)
+        for v in ["", " ", "\t ", ",", " , ", ",,", "gzip,", ",gzip", "identity", "\u00a0"]:
+            for extra in ([], [("Content-Length", "3")], [("Content-Encoding", "")]):
+                ctx.add("dec", [hdrs_spec([("Content-Encoding", v)] + extra), hx(b"abc")])
+                ctx.add("dec", [hdrs_spec(extra + [("content-encoding", v)]), hx(G.gz(b"abc"))])
+        for cs in ['"', '""', '"utf-8', 'utf-8"', '"utf-8"', "'", "=", "", " ", '" "', '"\u00e9"', "\u00e9", '"' * 3]:
+            for ct in ("text/plain; charset=%s", "TEXT/html;CHARSET=%s ; q=1", "text/x;charset=%s;charset=utf-8"):
+                ctx.add("txt", [hdrs_spec([("Content-Type", ct % cs)]), hx(b"ab\xc3\xa9")])
 
     def relations(self, ctx, impl):
         for cid, (canon, diag) in impl.items():
@@ -672,6 +679,18 @@ class C09(Prop):
         for g, ids in ctx.groups.items():
             base = fields_of(impl[ids[0]][0])
             if base.get("v") != "C":
+                # the parse of a completed message depends only on the bytes it consumed: if a
+                # longer buffer completes exactly at the end of this stream, so must the stream
+                for cid in ids[1:]:
+                    f = fields_of(impl[cid][0])
+                    if "sfx" not in ctx.meta[cid]:
+                        continue
+                    if f.get("v") == "C" and len(f["tr"].split(",")) == 1:
+                        b2 = int(f["tot"]) if g[1] == "req" else resp_boundary(f)
+                        if b2 == len(g[2]) and len(impl[ids[0]][0].split("tr=")[1].split(";")[0].split(",")) == 1:
+                            yield [ids[0], cid], (f"the message completes at its own end when followed by "
+                                                  f"{ctx.meta[cid]['sfx']!r} but not alone: {impl[ids[0]][0][:100]}")
+                            break
                 continue
             kind = g[1]
             s = g[2]
@@ -680,6 +699,8 @@ class C09(Prop):
                 pass    # the stream already carried extra bytes; still a valid base
             for cid in ids[1:]:
                 f = fields_of(impl[cid][0])
+                if "sfx" not in ctx.meta[cid]:
+                    continue
                 sfx = ctx.meta[cid]["sfx"]
                 ok = f.get("v") == "C"
                 if ok and kind == "req":
@@ -891,7 +912,8 @@ class C12(Prop):
                 i += n
             enc += b"0\r\n" + G.block([n + b": " + v for n, v in T])
             s = b"HTTP/1.1 200 OK\r\n" + G.block([n + b": " + v for n, v in H]) + enc
-            ctx.add("resp", [dels([s])], H=H, T=T, payload=payload)
+            parts = [s] if rng.random() < 0.6 else rng.choice(G.schedules(rng, s, 3)[1:])
+            ctx.add("resp", [dels(parts)], H=H, T=T, payload=payload)
 
     def project(self, ctx, cid, canon):
         f = fields_of(canon)
@@ -977,6 +999,24 @@ class C13(Prop):
     def gen(self, ctx):
         for _ in range(ctx.n(700, 7000)):
             add_decode_case(ctx, stack_only=True)
+        # large, highly repetitive bodies under stacks (each layer shrinks the input of the next a lot)
+        for size in ctx.n((70000, 200000), (70000, 200000, 1100000)):
+            for stack in (["gzip", "gzip"], ["raw", "gzip"], ["zlib", "zlib", "gzip"]):
+                plain = b"\x00" * size
+                data = plain
+                for c in stack:
+                    data = G.CODERS[c](ctx.rng, data)
+                ctx.add("dec", [hdrs_spec([("Content-Encoding", ", ".join(G.TOKEN_OF[c] for c in stack))]), hx(data)],
+                        plain=plain, stack=stack, unknown_at=None)
+        # tiny bodies, plain 10-byte gzip header, every level
+        for lvl in range(10):
+            for body in (b"", b"a", b"ab", b"abc"):
+                for stack in (["gzip"], ["raw", "gzip"], ["gzip", "gzip"]):
+                    data = body
+                    for c in stack:
+                        data = G.gz(data, lvl) if c == "gzip" else G.raw_deflate(data, lvl)
+                    ctx.add("dec", [hdrs_spec([("Content-Encoding", ", ".join(G.TOKEN_OF[c] for c in stack))]), hx(data)],
+                            plain=body, stack=stack, unknown_at=None)
         # every level, each format, fixed bodies
         for lvl in range(10):
             for body in (b"", b"a", b"hello hello hello hello", bytes(range(256)) * 3):
@@ -1207,6 +1247,18 @@ class C17(Prop):
                 return min(int(t.decode("ascii", "ignore").strip().lstrip("+").replace("_", "") or "z", base), 40)
             except ValueError:
                 return 20
+        for b in range(256):
+            strings += [bytes([b]), b"5" + bytes([b]), bytes([b]) + b"5", b"1" + bytes([b]) + b"0"]
+        # a well-formed Content-Length followed by a malformed one, delivered in pieces
+        for bad in [b"5x", b"+5", b"5 5", b"!5", b"5,5", b"0x5", b"-5", b"5;", b""]:
+            for first, second in ((b"5", bad), (bad, b"5"), (b"5", b"5")):
+                head = b"POST / HTTP/1.1\r\nContent-Length: " + first + b"\r\nX: y\r\nContent-Length: " + second + b"\r\n\r\n"
+                msg = head + b"hello"
+                for cut in range(1, len(msg)):
+                    ctx.add("req", ["d", "d", "d", dels([msg[:cut], msg[cut:]])], field="req-cl2", text=first + b"," + second)
+                msg = b"HTTP/1.1 200 OK\r\nContent-Length: " + first + b"\r\nContent-Length: " + second + b"\r\n\r\nhello"
+                for cut in range(20, len(msg), 3):
+                    ctx.add("resp", [dels([msg[:cut], msg[cut:]])], field="resp-cl2", text=first + b"," + second)
         for s in strings:
             body = b"x" * liberal(s, 10)
             ctx.add("req", ["d", "d", "d", dels([b"POST / HTTP/1.1\r\nContent-Length: " + s + b"\r\n\r\n" + body])], field="req-cl", text=s)
@@ -1227,7 +1279,9 @@ class C17(Prop):
             if verdict_class(impl[cid][0]) != "C":
                 continue
             t = m["text"]
-            if m["field"] in ("req-cl", "resp-cl"):
+            if m["field"] in ("req-cl2", "resp-cl2"):
+                ok = False       # the joined value "a,b" is never 1*DIGIT
+            elif m["field"] in ("req-cl", "resp-cl"):
                 val = t.strip(b" \t")        # OWS around a field value is not part of it
                 ok = len(val) > 0 and all(48 <= c <= 57 for c in val)
             elif m["field"] == "status":
